@@ -265,6 +265,20 @@ func init() {
 		}
 		return ex.rtype(it.t)
 	})
+	reg("reflect.DeepEqual", func(ex *Exec, fr *frame, pos token.Pos, args []value) value {
+		a, b := args[0].(iface), args[1].(iface)
+		if a.t == nil || b.t == nil {
+			return ex.b.Bool(a.t == nil && b.t == nil)
+		}
+		if !typesIdentical(a.t, b.t) {
+			return ex.b.False
+		}
+		switch a.t.Underlying().(type) {
+		case *types.Basic:
+			return ex.eqVal(a.t, a.v, b.v)
+		}
+		panic(ex.unsupported("reflect.DeepEqual on " + typeName(a.t)))
+	})
 	reg("reflect.ValueOf", func(ex *Exec, fr *frame, pos token.Pos, args []value) value {
 		it := args[0].(iface)
 		if it.t == nil {
